@@ -80,9 +80,9 @@ PROPS = {
              "plans = seeded list histories (3..40 ops over 2 slots: append, prepend, insert_at over {-len-2..len+3}, remove, remove_at, get, index, find, contains, reverse, "
              "iterator beyond the end, dup, del; keys 0..5 so duplicates are common); the same plan runs on array, linked_list and dlinked_list; after every op every list is "
              "read back completely (structure walk, count, get(i) for i in [-len-1,len], fresh iterator, to_array) and compared with an ideal sequence with holes; "
-             "since round 16 a remove that takes a later one of several equal elements is accepted only where the values that remain, in order, are those of the ideal sequence (from which the first equal element went); "
+             "since round 16 a remove that takes a later one of several equal elements is accepted only where the values that remain, in order, are those of the ideal sequence (from which the first equal element went), and one append in ten hands in an object the list already holds (there twice, removed twice, deleted once); "
              "distinct = distinct trace hash; non-trivial = >= 3 ops",
-             probes=["iterator_copied", "elements_of_two_comparable_classes", "insert_at_hole_created", "insert_at_len", "insert_at_refused", "remove_at_refused", "removed_last", "reverse_empty", "iterator_one_past_end",
+             probes=["same_object_in_list_twice", "iterator_copied", "elements_of_two_comparable_classes", "insert_at_hole_created", "insert_at_len", "insert_at_refused", "remove_at_refused", "removed_last", "reverse_empty", "iterator_one_past_end",
                      "probe_is_own_element", "iterator_abandoned_midway",
                      "list_dup", "dup_of_empty_container", "dup_of_container_with_hole"]),
     "C03": P(["plain", "plainz"], 30, 900,
